@@ -35,7 +35,7 @@ Explains(x, ev) ==
   /\ ev.k = x.k /\ (x.k \in {"err", "fail"} => ev.e = x.e)
   /\ ev.inprog = (x.cur # -1)
   /\ (x.cur # -1) => ev.buflen = x.blen
-  /\ ev.alloc <= 2 * MaxRecordData + 65536
+  /\ ev.alloc <= 1024 * ev.len + 2 * ev.buflen + 65536     \* heap inside the call: linear in the record + amortised buffer growth
 
 Next ==
   /\ verdict = "running" /\ l <= N
